@@ -9,12 +9,13 @@ the regenerated `Gen.Jp`. `Spec.eval` is the documented denotation (iterated `fl
   every path, every tree and every configuration (termination: `Get.cost` is a proved fuel bound).
 * `C05_general` — for every configuration of the deviation flags, the machine returns exactly the
   denotation (same elements, same order) whenever the hypotheses keep the flagged branches out.
-* `C05_fixed` — with every flag off (the code after the proposed fixes) this is every path that does not
-  end in a bare descent and every tree of at most `maxEnd` nodes.
-* `C05_partial` — the pinned code: additionally no descent directly after another fragment
-  (`descentSiblings`) and no inner slice with |step| > 1 (`innerEmptySlice`).
-* `C05_full_false` — the full-strength statement is false for the pinned code (three witnesses, one per
-  deviation class).
+* `C05_current` — **the code as it is now** (`Cfg.pinned`, after the fixes baff053 and 0e0caaf): every path
+  that does not end in a bare descent and every tree of at most `maxEnd` nodes. `C05_fixed`: the same for
+  the configuration with every flag off.
+* `C05_full_false` — the statement without the restriction on the last fragment is still false
+  (`witness_trailing_descent`, known finding C05-trailing-descent-leaf).
+* `C05_original_partial`, `witness_inner_slice` (before 0e0caaf), `witness_siblings` (before baff053):
+  what held and what failed for the code before those two fixes (`Cfg.original`).
 * `C05_position` — a fragment selects the same elements in the last and in an inner position. -/
 namespace OjgVerif.C05
 open OjgVerif OjgVerif.JPath
@@ -55,20 +56,30 @@ theorem C05_located (cfg : Cfg) (x : List Frag) (d : JV)
     getS cfg Rep.simple x d = eval x d :=
   getS_eq_eval cfg x d hs he ht hz
 
-/-- after the proposed fixes: every path that does not end in a bare descent, every tree -/
+/-- **C05 for the code as it is now**: Get returns exactly the elements the path denotes, in the same order,
+for every path that does not end in a bare descent and every tree -/
+theorem C05_current (x : List Frag) (d : JV) (ht : endsInDescent x = false) (hz : (jsize d : Int) ≤ maxEnd) :
+    getM Cfg.pinned Rep.simple x d = evalV x d :=
+  C05_general Cfg.pinned x d (Or.inl rfl) (Or.inl rfl) ht hz
+
+/-- … with the locations -/
+theorem C05_current_located (x : List Frag) (d : JV) (ht : endsInDescent x = false)
+    (hz : (jsize d : Int) ≤ maxEnd) : getS Cfg.pinned Rep.simple x d = eval x d :=
+  C05_located Cfg.pinned x d (Or.inl rfl) (Or.inl rfl) ht hz
+
+/-- every flag off -/
 theorem C05_fixed (x : List Frag) (d : JV) (ht : endsInDescent x = false) (hz : (jsize d : Int) ≤ maxEnd) :
     getM Cfg.fixed Rep.simple x d = evalV x d :=
   C05_general Cfg.fixed x d (Or.inl rfl) (Or.inl rfl) ht hz
 
-/-- the pinned code, outside the two listed deviation classes -/
-theorem C05_partial (x : List Frag) (d : JV)
-    (hs : Cfg.pinned.descentSiblings = false ∨ noDescAfter x = true)
-    (he : Cfg.pinned.innerEmptySlice = false ∨ x.dropLast.all narrow = true)
+/-- the code before baff053 and 0e0caaf, outside the two deviation classes -/
+theorem C05_original_partial (x : List Frag) (d : JV)
+    (hs : noDescAfter x = true) (he : x.dropLast.all narrow = true)
     (ht : endsInDescent x = false) (hz : (jsize d : Int) ≤ maxEnd) :
-    getM Cfg.pinned Rep.simple x d = evalV x d :=
-  C05_general Cfg.pinned x d hs he ht hz
+    getM Cfg.original Rep.simple x d = evalV x d :=
+  C05_general Cfg.original x d (Or.inr hs) (Or.inr he) ht hz
 
-/-- the statement at full strength (trees of at most `maxEnd` nodes) -/
+/-- the statement at full strength (trees of at most `maxEnd` nodes, every path) -/
 def C05_full : Prop :=
   ∀ (x : List Frag) (d : JV), (jsize d : Int) ≤ maxEnd → getM Cfg.pinned Rep.simple x d = evalV x d
 
@@ -82,23 +93,30 @@ def w2data : JV := .arr [.arr [.int 1], .arr [.obj [([97], .int 5)]]]
 def w3path : List Frag := [.nth 0, .descent]
 def w3data : JV := .arr [.int 5]
 
+/-- before 0e0caaf: an empty slice range with |step| > 1 selected one element in an inner position;
+now it selects none -/
 theorem witness_inner_slice :
-    (getM Cfg.pinned Rep.simple w1path w1data).length = 1 ∧ (evalV w1path w1data).length = 0 := by decide
+    (getM Cfg.original Rep.simple w1path w1data).length = 1 ∧ (evalV w1path w1data).length = 0 ∧
+    (getM Cfg.pinned Rep.simple w1path w1data).length = 0 := by decide
 
+/-- before baff053: a descent after a fragment that hands on several containers descended into the first
+only; now into all -/
 theorem witness_siblings :
-    (getM Cfg.pinned Rep.simple w2path w2data).length = 0 ∧ (evalV w2path w2data).length = 1 := by decide
+    (getM Cfg.original Rep.simple w2path w2data).length = 0 ∧ (evalV w2path w2data).length = 1 ∧
+    (getM Cfg.pinned Rep.simple w2path w2data).length = 1 := by decide
 
+/-- still so: a non-container selected before a trailing bare descent is not reported -/
 theorem witness_trailing_descent :
     (getM Cfg.pinned Rep.simple w3path w3data).length = 0 ∧ (evalV w3path w3data).length = 1 := by decide
 
 theorem C05_full_false : ¬ C05_full := by
   intro h
-  have h1 := h w1path w1data (by decide)
-  have h2 := witness_inner_slice
+  have h1 := h w3path w3data (by decide)
+  have h2 := witness_trailing_descent
   rw [h1] at h2
   omega
 
-/-- non-trivial instance of the hypotheses of `C05_partial`: `$.a[1:3:1][0]..b[?]` style path -/
+/-- non-trivial instance of the hypotheses of `C05_original_partial` (and of `C05_current`): `$..a[1:3][-1]` -/
 example : noDescAfter [.descent, .child [97], .slice (some 1) (some 3) none, .nth (-1)] = true ∧
     [Frag.descent, .child [97], .slice (some 1) (some 3) none, .nth (-1)].dropLast.all narrow = true ∧
     endsInDescent [.descent, .child [97], .slice (some 1) (some 3) none, .nth (-1)] = false := by decide
